@@ -296,8 +296,7 @@ type analysisRun struct {
 	sampleMu sync.Mutex
 	samples  int
 
-	costMu sync.Mutex
-	cost   map[string]float64 // seconds spent per component (evidence / tuning only)
+	cost map[string]float64 // seconds spent per component (evidence / tuning only); accounting goroutine only
 }
 
 const shrinkPerSig = 3
@@ -314,15 +313,79 @@ type jrec struct {
 	In string `json:"input_quoted"`
 }
 
+// What a worker hands to the accounting goroutine after a task. ev's mutex is shared by Journal,
+// Case and Count; 16 workers taking it twice per call spent 60% of their time waiting for it, so
+// the per-case accounting is done by one goroutine and the journal is written once per task.
+type caseRec struct {
+	key string
+	nt  bool
+}
+
+type taskResult struct {
+	kind                                 string
+	id                                   string
+	cases                                []caseRec
+	calls, toks, nontriv, sweep, skipped int
+	seconds                              float64
+}
+
+type jtask struct {
+	C      string   `json:"component"`
+	Inputs []jinput `json:"inputs_in_flight"`
+}
+
+type jinput struct {
+	I  int    `json:"input_index"`
+	F  string `json:"feeder,omitempty"`
+	In string `json:"input_quoted"`
+}
+
 // runRound executes every component on inputs[lo:hi) with the worker pool, then shrinks and
 // reports what was found (deterministically: findings are sorted, not taken in arrival order).
 func (a *analysisRun) runRound(inputs [][]byte, lo, hi int) {
-	type task struct{ ci int }
-	tasks := make(chan task, len(a.cat.comps))
-	for ci := range a.cat.comps {
-		tasks <- task{ci}
+	// one task = one component x a sub-batch of the round's inputs; the expensive kinds (analyzers,
+	// then token filters) are queued first so that no worker is left with a long task at the end
+	const sub = 16
+	type task struct{ ci, lo, hi int }
+	var list []task
+	for ci := len(a.cat.comps) - 1; ci >= 0; ci-- {
+		for l := lo; l < hi; l += sub {
+			if a.cat.comps[ci].randomChain && l >= a.sweepFrom {
+				break // the code point sweep is for the registered and hand-configured components
+			}
+			h := l + sub
+			if h > hi {
+				h = hi
+			}
+			list = append(list, task{ci, l, h})
+		}
+	}
+	tasks := make(chan task, len(list))
+	for _, t := range list {
+		tasks <- t
 	}
 	close(tasks)
+
+	results := make(chan *taskResult, 256)
+	accDone := make(chan struct{})
+	go func() { // the only goroutine that touches r.Case / r.Count during the round
+		defer close(accDone)
+		for res := range results {
+			for _, c := range res.cases {
+				a.r.Case(c.key, c.nt)
+			}
+			a.r.Evals(res.sweep)
+			a.r.Count("calls_code_point_sweep", res.sweep)
+			a.r.Count("calls/"+res.kind, res.calls)
+			a.r.Count("tokens_produced", res.toks)
+			a.r.Count("nontrivial_calls", res.nontriv)
+			if res.skipped > 0 {
+				a.r.Count("token_filter_calls_skipped_feeder_panicked", res.skipped)
+			}
+			a.cost[res.id] += res.seconds
+		}
+	}()
+
 	var wg sync.WaitGroup
 	for w := 0; w < a.workers; w++ {
 		wg.Add(1)
@@ -330,13 +393,20 @@ func (a *analysisRun) runRound(inputs [][]byte, lo, hi int) {
 			defer wg.Done()
 			for t := range tasks {
 				c := a.cat.comps[t.ci]
-				var calls, toks, nontriv, sweepEvals int
+				res := &taskResult{kind: c.kind, id: c.id()}
 				t0 := time.Now()
-				for ii := lo; ii < hi; ii++ {
+				// the (component, input[, feeder]) pairs of this task, journalled before any of them runs:
+				// if the process dies the journal names the component and at most 16 candidate inputs
+				type pair struct {
+					ii     int
+					feeder *comp
+				}
+				var pairs []pair
+				jt := jtask{C: c.id()}
+				for ii := t.lo; ii < t.hi; ii++ {
 					if c.randomChain && ii >= a.sweepFrom {
-						break // the code point sweep is for the registered and hand-configured components
+						break
 					}
-					in := inputs[ii]
 					feeders := []*comp{nil}
 					if c.kind == "token_filter" {
 						if ii < a.allFeedersBelow {
@@ -345,64 +415,65 @@ func (a *analysisRun) runRound(inputs [][]byte, lo, hi int) {
 							feeders = []*comp{a.feederFor(t.ci, ii)}
 						}
 					}
-					for _, feeder := range feeders {
-						rec := jrec{C: c.id(), I: ii, In: strconv.Quote(string(in))}
-						if feeder != nil {
-							rec.F = feeder.name
+					for _, f := range feeders {
+						pairs = append(pairs, pair{ii, f})
+						ji := jinput{I: ii, In: strconv.Quote(string(inputs[ii]))}
+						if f != nil {
+							ji.F = f.name
 						}
-						a.r.Journal(rec)
-						a.wd.enter(slot, c.id(), in)
-						o := invoke(c, feeder, in)
-						a.wd.leave(slot)
-						if o.skipped {
-							a.r.Count("token_filter_calls_skipped_feeder_panicked", 1)
-							continue
-						}
-						calls++
-						toks += o.ntok
-						hostile := false
-						if cl := inputClass(in); cl == "multibyte" || cl == "invalid-utf8" {
-							hostile = true
-						}
-						nt := hostile && (o.ntok > 0 || (c.kind == "char_filter" && o.outLen > 0))
-						if nt {
-							nontriv++
-						}
-						if ii >= a.sweepFrom {
-							sweepEvals++ // systematic code point sweep: counted, not individually hashed
-						} else {
-							key := c.id() + "|" + strconv.FormatUint(hashBytes(in), 16)
-							if feeder != nil {
-								key += "|" + feeder.name
-							}
-							a.r.Case(key, nt)
-						}
-						if o.panicked {
-							a.add(finding{comp: c, feeder: feeder, inIdx: ii, input: in, sig: panicSig(o)})
-							continue
-						}
-						if c.kind == "tokenizer" {
-							if which, _ := checkTokens(o.tokens, len(in)); which != "" {
-								a.add(finding{comp: c, inIdx: ii, input: in, sig: which, isInv: true})
-							}
-						}
-						if nt && c.kind != "datetime_parser" {
-							a.maybeSample(c, feeder, in, o)
-						}
+						jt.Inputs = append(jt.Inputs, ji)
 					}
 				}
-				a.costMu.Lock()
-				a.cost[c.id()] += time.Since(t0).Seconds()
-				a.costMu.Unlock()
-				a.r.Evals(sweepEvals)
-				a.r.Count("calls_code_point_sweep", sweepEvals)
-				a.r.Count("calls/"+c.kind, calls)
-				a.r.Count("tokens_produced", toks)
-				a.r.Count("nontrivial_calls", nontriv)
+				a.r.Journal(jt)
+				for _, p := range pairs {
+					ii, feeder, in := p.ii, p.feeder, inputs[p.ii]
+					a.wd.enter(slot, c.id(), in)
+					o := invoke(c, feeder, in)
+					a.wd.leave(slot)
+					if o.skipped {
+						res.skipped++
+						continue
+					}
+					res.calls++
+					res.toks += o.ntok
+					hostile := false
+					if cl := inputClass(in); cl == "multibyte" || cl == "invalid-utf8" {
+						hostile = true
+					}
+					nt := hostile && (o.ntok > 0 || (c.kind == "char_filter" && o.outLen > 0))
+					if nt {
+						res.nontriv++
+					}
+					if ii >= a.sweepFrom {
+						res.sweep++ // systematic code point sweep: counted, not individually hashed
+					} else {
+						key := c.id() + "|" + strconv.FormatUint(hashBytes(in), 16)
+						if feeder != nil {
+							key += "|" + feeder.name
+						}
+						res.cases = append(res.cases, caseRec{key, nt})
+					}
+					if o.panicked {
+						a.add(finding{comp: c, feeder: feeder, inIdx: ii, input: in, sig: panicSig(o)})
+						continue
+					}
+					if c.kind == "tokenizer" {
+						if which, _ := checkTokens(o.tokens, len(in)); which != "" {
+							a.add(finding{comp: c, inIdx: ii, input: in, sig: which, isInv: true})
+						}
+					}
+					if nt && c.kind != "datetime_parser" {
+						a.maybeSample(c, feeder, in, o)
+					}
+				}
+				res.seconds = time.Since(t0).Seconds()
+				results <- res
 			}
 		}(w)
 	}
 	wg.Wait()
+	close(results)
+	<-accDone
 	a.report()
 	a.r.JournalReset()
 }
